@@ -543,7 +543,13 @@ class SubtypeUnpackerBuilder(DiscriminatedUnionUnpackerBuilder):
     def _get_variants_attr(self, spec: ValueSpec) -> str:
         if self._variants_attr is None:
             assert self.discriminator.include_subtypes
+            # registered variants are compiled per format: one map each
             self._variants_attr = "__mashumaro_subtype_variants__"
+            if spec.builder.format_name != "dict":
+                self._variants_attr = (
+                    "__mashumaro_subtype_variants_"
+                    f"{spec.builder.format_name}__"
+                )
         return self._variants_attr
 
 
